@@ -8,7 +8,7 @@ import os
 import struct
 from binascii import hexlify
 
-from ..core import HarnessError
+from ..core import HarnessError, Violation
 from .. import seams
 from . import common
 
@@ -83,12 +83,57 @@ def api_check(obj, key, alt=False, hasher=None, longer=0):
 class Env:
     """What a subject needs from the run: hash strategy, scratch tree, counters."""
 
+    CLOSURE_KINDS = ("dec_bytes", "dec_int", "sim", "sim_sq")
+
     def __init__(self, ctx, cfg, need_fs=True):
         seams.SURROGATE_OK = cfg.get("hash") == "fnv"
         self.ctx = ctx
-        self.hf = seams.make_list_hash(cfg["hash"], cfg["hseed"], cfg.get("squeeze", 0))
+        self.cfg = cfg
+        self._hash = (cfg["hash"], cfg["hseed"], cfg.get("squeeze", 0))
+        self.hf = seams.make_list_hash(*self._hash)
         self.scr = seams.Scratch(ctx.scratch) if need_fs else None
         self.n_files = 0
+        self.dead_ids = set()
+
+    def closures(self):
+        return self._hash[0] in self.CLOSURE_KINDS
+
+    def fresh_hf(self):
+        """Another function OBJECT computing the run's hash strategy (a factory that builds the strategy per filter);
+        for the library default and the module-level strategies there is only the one object."""
+        if not self.closures():
+            return self.hf
+        hf = seams.make_list_hash(*self._hash)
+        if id(hf) in self.dead_ids:
+            self.ctx.fault("hash_object_id_reused")
+        return hf
+
+    def other_hf(self, n=1):
+        """A strategy of the same kind under another key: computes different values."""
+        kind, seed, squeeze = self._hash
+        return seams.make_list_hash(kind, (seed + 7919 * n) & 0xFFFFFF, squeeze)
+
+    def recycle(self, exercise, n=1, makers=None):
+        """Prior life: n strategy objects of ANOTHER key are created, handed to exercise(*objs) (which builds short-lived
+        structures around them and uses them), and die - before the run's own strategy object is created.  CPython hands
+        the freed addresses out again, so anything the library remembers per id() of a function or of a structure
+        meets an object that is not the one it remembered."""
+        if not self.cfg.get("recycle") or not self.closures():
+            return False
+        import gc
+
+        self.hf = None
+        gc.collect()
+        decoys = [mk() for mk in makers] if makers else [self.other_hf(i + 1) for i in range(n)]
+        self.dead_ids = {id(d) for d in decoys}
+        try:
+            exercise(*decoys)
+        finally:
+            del decoys
+            gc.collect()
+        self.ctx.fault("prior_life")
+        self.hf = self.fresh_hf()
+        return True
 
     def fresh_name(self, ext):
         self.n_files += 1
@@ -120,6 +165,24 @@ class Subject:
         self.obj = None
         self.model = {}  # key index -> outstanding count (or 1)
         self.total_adds = 0
+        if cfg.get("recycle") and not cfg.get("_decoy"):
+            def exercise(hf):
+                env.hf = hf
+                d = type(self)(env, dict(cfg, _decoy=True, subclass=False))
+                try:
+                    d.build()
+                    for k in range(min(cfg.get("universe", 8), 10)):
+                        d.apply_op({"op": "add", "k": k, "n": 1 + k % 3, "force": False})
+                finally:
+                    d.close()
+                    env.hf = None
+
+            env.recycle(exercise)
+        if cfg.get("subclass"):
+            base = type(self).cls(self)
+            sub = type("User" + base.__name__, (base,), {})
+            self.cls = lambda: sub
+            env.ctx.fault("user_subclass")
 
     # -- export over one channel; returns payload (bytes, or str for hex)
     def export(self, chan, where=None, style="abs"):
@@ -132,7 +195,12 @@ class Subject:
             return sink.getvalue()
         if chan == "path":
             d, name = where
-            obj.export(self.env.scr.spell(d, name, style))
+            spelled = self.env.scr.spell(d, name, style)
+            obj.export(spelled)
+            if not os.path.isfile(self.env.scr.abspath(d, name)):
+                raise Violation("export_destination_missing",
+                                f"{self.name}.export({spelled!r}) from cwd {self.env.scr.cwd!r} returned, but there is no "
+                                f"file at that path", {"class": self.name, "chan": "path", "style": style})
             return common.read_fresh(self.env.scr.abspath(d, name))
         if chan == "hex":
             return obj.export_hex()
@@ -653,7 +721,14 @@ ALL_SUBJECTS.update(SKETCH_SUBJECTS)
 
 def gen_cfg_for(name, rng):
     if name in BLOOM_SUBJECTS:
-        return BloomSubject.gen_cfg(rng, small=True)
-    if name in EXP_SUBJECTS:
-        return ExpandingSubject.gen_cfg(rng)
-    return SketchSubject.gen_cfg(rng)
+        cfg = BloomSubject.gen_cfg(rng, small=True)
+    elif name in EXP_SUBJECTS:
+        cfg = ExpandingSubject.gen_cfg(rng)
+    else:
+        cfg = SketchSubject.gen_cfg(rng)
+    # the structure under test is a trivial user subclass of the library class (documented classes are subclassable;
+    # the library itself derives five of them from one another)
+    cfg["subclass"] = rng.chance(1, 10)
+    # a short-lived structure of the same class with another hash-strategy object precedes the subject (Env.recycle)
+    cfg["recycle"] = rng.chance(1, 6)
+    return cfg
